@@ -1,5 +1,6 @@
 import TallyVerif.Driver.Util
 import TallyVerif.Model.Expr
+import TallyVerif.Model.ExprNames
 import TallyVerif.Gen.ExprTables
 /-! JSON codec for expression ASTs, values, contexts and oracle tables; op `eval`. -/
 namespace TallyVerif.Driver
@@ -158,6 +159,46 @@ def resultJson : Except Err Val → Json
   | .ok v => obj [("ok", valToJson v)]
   | .error e => errJson e
 
+/-! canonical text of a model AST (every constructor, every identifier, every constant): used only to compare
+`Expr.mapNames` with a Python `ast.NodeTransformer` tree against tree (op `eval` with `"dump": true`) -/
+def dumpStr (s : String) : String := (Json.str s).compress
+def cmpOpName : CmpOp → String
+  | .eq => "Eq" | .ne => "NotEq" | .lt => "Lt" | .le => "LtE" | .gt => "Gt" | .ge => "GtE" | .isIn => "In" | .notIn => "NotIn"
+def binOpName : BinOp → String
+  | .add => "Add" | .sub => "Sub" | .mul => "Mult" | .div => "Div" | .mod => "Mod"
+mutual
+def dumpExpr : Expr → String
+  | .const v => "(const " ++ (valToJson v).compress ++ ")"
+  | .name id => "(name " ++ dumpStr id ++ ")"
+  | .attr e a => "(attr " ++ dumpExpr e ++ " " ++ dumpStr a ++ ")"
+  | .attrName id a => "(attrName " ++ dumpStr id ++ " " ++ dumpStr a ++ ")"
+  | .callName g args => "(callName " ++ dumpStr g ++ " [" ++ dumpList args ++ "])"
+  | .callNameGen g elt gens more =>
+    "(callNameGen " ++ dumpStr g ++ " " ++ dumpExpr elt ++ " [" ++ dumpComps gens ++ "] [" ++ dumpList more ++ "])"
+  | .callAttr recv meth args => "(callAttr " ++ dumpExpr recv ++ " " ++ dumpStr meth ++ " [" ++ dumpList args ++ "])"
+  | .callOther g args => "(callOther " ++ dumpExpr g ++ " [" ++ dumpList args ++ "])"
+  | .boolop isAnd es => "(boolop " ++ (if isAnd then "And" else "Or") ++ " [" ++ dumpList es ++ "])"
+  | .unop op e => "(unop " ++ (match op with | .not => "Not" | .neg => "USub") ++ " " ++ dumpExpr e ++ ")"
+  | .binop op l r => "(binop " ++ binOpName op ++ " " ++ dumpExpr l ++ " " ++ dumpExpr r ++ ")"
+  | .cmp l links => "(cmp " ++ dumpExpr l ++ " [" ++ dumpLinks links ++ "])"
+  | .ifexp c t e => "(ifexp " ++ dumpExpr c ++ " " ++ dumpExpr t ++ " " ++ dumpExpr e ++ ")"
+  | .listcomp elt gens => "(listcomp " ++ dumpExpr elt ++ " [" ++ dumpComps gens ++ "])"
+  | .genexp elt gens => "(genexp " ++ dumpExpr elt ++ " [" ++ dumpComps gens ++ "])"
+  | .subscript e i => "(subscript " ++ dumpExpr e ++ " " ++ dumpExpr i ++ ")"
+  | .walrus id e => "(walrus " ++ dumpStr id ++ " " ++ dumpExpr e ++ ")"
+def dumpList : List Expr → String
+  | [] => ""
+  | e :: es => dumpExpr e ++ " " ++ dumpList es
+def dumpLinks : List Link → String
+  | [] => ""
+  | .mk op e :: rest => "(" ++ cmpOpName op ++ " " ++ dumpExpr e ++ ") " ++ dumpLinks rest
+def dumpComps : List Comp → String
+  | [] => ""
+  | .mk target iter ifs :: gs =>
+    "(for " ++ (match target with | some x => dumpStr x | none => "?") ++ " " ++ dumpExpr iter ++ " [" ++ dumpList ifs ++ "]) " ++
+      dumpComps gs
+end
+
 /-- function-name table shipped with the case (regenerated from source by the harness) -/
 def fnNames (_ : Json) : List String := TallyVerif.Gen.ExprTables.functionNames
 
@@ -165,6 +206,18 @@ def handleEval (j : Json) : Json :=
   let ctx := ctxOfJson (jget j "ctx") (fnNames j)
   let o := oraclesOf (tableOfJson (jget j "oracle"))
   let e := exprOfJson (jget j "expr")
+  -- optional `rename`: the model's own `Expr.mapNames` is applied before evaluation ("upper" / "lower", or a table
+  -- `[[from, to], …]` of per-identifier respellings) — compared by C04 with a Python `ast.NodeTransformer`
+  let e := match jget j "rename" with
+    | .str "upper" => e.mapNames String.toUpper
+    | .str "lower" => e.mapNames lowerName
+    | .arr a =>
+      let tbl := a.toList.map fun kv => match kv with
+        | .arr p => (asStr (p.getD 0 .null), asStr (p.getD 1 .null))
+        | _ => ("", "")
+      e.mapNames (fun id => (tbl.lookup id).getD id)
+    | _ => e
+  if jbool j "dump" then obj [("dump", .str (dumpExpr e))] else
   let (r, scope) := eval o ctx e []
   let r := if jbool j "convert_py" then (match r with
       | .error (.py _) => Except.error (Err.expr "converted")
